@@ -8,9 +8,15 @@ Tie: the extracted model (ocaml/c19) and the real crate (harness bin c19) run on
      set with captures and by count), and with 2-5-entry matchers on generated sets (the entry the
      implementation returned is given to the model as the iteration-order oracle);
  (b) DispatchConn::run in a thread over a scripted connection: up to 8 incoming messages, handlers that
-     log, add routes and return Some/None/Err; run() is called again after every failing handler (so that
-     routes a failing handler asked for would show on later messages); invocation log, the replies read at
-     the peer and the sequence of run() results are compared.
+     log, add routes, send 0-3 signals of their own through env.conn (lock, send_message + write_all,
+     unlock - the documented way to emit from a handler) and return Some/None/Err; run() is called again
+     after every failing handler (so that routes a failing handler asked for would show on later
+     messages); invocation log, the replies read at the peer and the sequence of run() results are
+     compared.  The model has no notion of what a handler sends itself: those signals carry a marker
+     interface, the harness takes them out of the peer's trace before the comparison and reports each
+     with its position, and the check requires apart that all of them arrived, in order, before the reply
+     of the message whose handler sent them.  A run() that is still going 20 s after it started (hang
+     detector; a run takes milliseconds) is the verdict "message N never answered".
 On a difference the property predicate is evaluated on the implementation's own output.
 """
 import concurrent.futures as cf
@@ -216,6 +222,7 @@ def gen_run(r):
         routes.append((gen_route(r, paths), i + 1))
     msgs = []
     p_err = r.choice([0.0, 0.0, 0.1, 0.25])
+    p_emit = r.choice([0.0, 0.15, 0.3, 0.6])
     for i in range(nmsg):
         k = r.random()
         # c call, k call that also carries a REPLY_SERIAL field, s signal (always has a path),
@@ -235,7 +242,10 @@ def gen_run(r):
         dest = r.choice([None, None, "org.me", ":1.1"])
         inbody = r.choice([None, None, "x", "payload"])
         bo = r.choice("llB")
-        msgs.append({"flags": flags, "dest": dest, "inbody": inbody, "bo": bo, "serial": 10 + i, "typ": typ, "obj": paths[i] if has_path else None, "sender": sender,
+        # what the handler sends itself through env.conn before it returns (one lock around all / one per signal)
+        emit = r.choice([1, 1, 2, 3]) if r.random() < p_emit else 0
+        relock = emit > 0 and r.random() < 0.4
+        msgs.append({"emit": emit, "relock": relock, "flags": flags, "dest": dest, "inbody": inbody, "bo": bo, "serial": 10 + i, "typ": typ, "obj": paths[i] if has_path else None, "sender": sender,
                      "res": res, "body": body, "newroutes": nr})
     return {"routes": routes, "msgs": msgs}
 
@@ -251,7 +261,8 @@ def run_line(case):
                             hx(m["sender"]) if m["sender"] is not None else "-", m["res"],
                             hx(m["body"]) if m["res"] == "S" else "-", fmt_routes(m["newroutes"]),
                             str(m.get("flags", 0)), hx(m["dest"]) if m.get("dest") is not None else "-",
-                            hx(m["inbody"]) if m.get("inbody") is not None else "-", m.get("bo", "l")]))
+                            hx(m["inbody"]) if m.get("inbody") is not None else "-", m.get("bo", "l"),
+                            "%s%d" % ("p" if m.get("relock") else "e", m.get("emit", 0))]))
     return "%s %s" % (fmt_routes(case["routes"]), "|".join(ms) if ms else "-")
 
 
@@ -261,7 +272,21 @@ def parse_out(line):
         k, _, v = tok.partition("=")
         d[k] = [] if v == "-" else v.split("|")
     d["end"] = d["end"][0] if d.get("end") else "?"
+    d.setdefault("emits", [])
     return d
+
+
+def expected_emits(case):
+    """every message is given to a handler (run() is called again after a failing one); what the handler of
+    message i sends itself arrives after one reply per earlier successfully handled message and before
+    its own"""
+    out, written = [], 0
+    for m in case["msgs"]:
+        for j in range(m.get("emit", 0)):
+            out.append("%s@%d" % (hx("%d.%d" % (m["serial"], j)), written))
+        if m["res"] != "E":
+            written += 1
+    return out
 
 
 def is_call(m):
@@ -283,6 +308,13 @@ def judge_run(case, out, sets):
     """the property, evaluated on what the implementation did; sets[i] = the entries whose pattern
     matches message i under the routing the property prescribes. None = property holds."""
     msgs = case["msgs"]
+    if "hang" in out["end"]:
+        n = len(out["log"])
+        last = msgs[n - 1] if 0 < n <= len(msgs) else None
+        return ("run() did not come back within 20 s: message %s (invocation %d of %d, its handler %s) was never answered "
+                "and the %d messages after it were given to no handler"
+                % (last["serial"] if last else "?", n, len(msgs),
+                   "sends through env.conn" if last and last.get("emit") else "only logs", max(0, len(msgs) - n)))
     if any(x.startswith("undecodable") for x in out["replies"]):
         return "the bytes written to the caller are not well-formed messages"
     # the harness calls run() again after every failing handler, so every message is dispatched
@@ -343,6 +375,9 @@ def check_run(ctx, exe, drv, cases):
     bad = []
     for c, li, lm in zip(cases, impl, model):
         oi, om = parse_out(li), parse_out(lm)
+        if oi["end"] == "skipped":            # an earlier run of the same harness process hung (reported there)
+            ctx.count("run:skipped_after_a_hang")
+            continue
         routed = sum(1 for x in om["log"] if not x.startswith("D;"))
         added = sum(len(m["newroutes"]) for m in c["msgs"])
         nt = routed > 0 or added > 0
@@ -358,8 +393,13 @@ def check_run(ctx, exe, drv, cases):
         ctx.count("run:routed_invocations", routed)
         ctx.count("run:default_invocations", len(om["log"]) - routed)
         ctx.count("run:routes_added_by_handlers", added)
+        emitted = sum(m.get("emit", 0) for m in c["msgs"])
+        ctx.count("run:signals_sent_by_handlers_through_env.conn", emitted)
+        ctx.count("run:handlers_sending_through_env.conn", sum(1 for m in c["msgs"] if m.get("emit")))
+        ctx.count("run:handlers_sending_with_one_lock_per_signal", sum(1 for m in c["msgs"] if m.get("relock")))
         same = (oi["log"] == om["log"] and oi["end"] == om["end"]
-                and oi["replies"] == om["replies"])       # everything written, for calls and non-calls alike
+                and oi["replies"] == om["replies"]        # everything run() wrote, for calls and non-calls alike
+                and oi["emits"] == expected_emits(c))     # what the handlers wrote: all there, in order, before their reply
         if not same:
             bad.append((c, li, lm))
     if bad:
@@ -367,9 +407,13 @@ def check_run(ctx, exe, drv, cases):
         for (c, li, lm), st in zip(bad, sets or []):
             ctx.disagreements_checked += 1
             why = judge_run(c, parse_out(li), st.split("|") if st != "-" else [])
-            data = {"kind": "run", "case": c, "line": "run " + run_line(c), "impl": li, "model": lm, "matching_routes_per_message": st}
+            data = {"kind": "run", "case": c, "line": "run " + run_line(c), "impl": li, "model": lm, "matching_routes_per_message": st,
+                    "signals_expected_from_handlers": expected_emits(c)}
             if why:
                 ctx.violation(why, data)
+            elif parse_out(li)["emits"] != expected_emits(c):
+                ctx.tie_broken("correspondence: the signals the handlers sent through env.conn did not all arrive, in order, before "
+                               "the reply of their message (the routing and the replies themselves are as the property says)", str(data)[:3000])
             else:
                 ctx.tie_broken("correspondence: run() differs from the model on a point the property does not constrain", str(data)[:3000])
 
@@ -406,7 +450,8 @@ def parse_run_line(routes, msgs):
                         "sender": None if f[3] == "-" else unhx(f[3]).decode(), "res": f[4],
                         "body": unhx(f[5]).decode(), "newroutes": parse_routes(f[6]),
                         "flags": int(f[7]) if len(f) > 7 else 0, "dest": None if len(f) <= 8 or f[8] == "-" else unhx(f[8]).decode(),
-                        "inbody": None if len(f) <= 9 or f[9] == "-" else unhx(f[9]).decode(), "bo": f[10] if len(f) > 10 else "l"})
+                        "inbody": None if len(f) <= 9 or f[9] == "-" else unhx(f[9]).decode(), "bo": f[10] if len(f) > 10 else "l",
+                        "emit": int(f[11][1:]) if len(f) > 11 else 0, "relock": len(f) > 11 and f[11][0] == "p"})
     return {"routes": parse_routes(routes), "msgs": out}
 
 
@@ -466,7 +511,11 @@ def run(ctx):
                 "alphabet with ':', '**', 'a*'), plus generated long/odd pairs and 2-5-entry matchers built around a query; "
                 "(b) DispatchConn::run over a scripted socket: 0-4 initial routes, 1-8 incoming messages (calls, signals "
                 "with a path, method returns and errors with and without a path; flags 0/1(NO_REPLY_EXPECTED)/2/4/255, optional destination, "
-                "optional string body, both byte orders), handlers returning Some/None/Err and adding routes. Non-trivial: matcher "
+                "optional string body, both byte orders), handlers returning Some/None/Err, adding routes and (in 3 of 4 runs, "
+                "15-60% of the handlers) sending 1-3 signals themselves through env.conn before they return, with one lock around "
+                "all or one per signal; the model is kept without handler emissions: the marker-interface signals are taken out of "
+                "the peer's trace before it is compared with the model's and must, apart, all be there in order before the reply of "
+                "their message; a run() not back 20 s after it started is reported as a call never answered. Non-trivial: matcher "
                 "pair whose pattern has a named or wildcard part and whose path is not shorter than the pattern; "
                 "multi-entry case with at least one matching entry; run in which a non-default handler is invoked or a "
                 "route is added. Distinct = distinct inputs (hashed); enumerated pairs are distinct by construction.")
@@ -474,7 +523,7 @@ def run(ctx):
                    "ocaml/c19/driver.ml and harness/src/bin/c19.rs (I/O wrappers; the harness has its own little-endian message codec for the peer side)",
                    "Conn/DispatchSpec.v is my reading of the property text",
                    "std: str::split, HashMap (modelled as association list + iteration-order oracle)"]
-    ctx.assumptions = ["handlers do not write to env.conn themselves; sending a reply succeeds (peer reads; C10 covers sending)",
+    ctx.assumptions = ["sending a reply succeeds (peer reads; C10 covers sending)",
                        "HashMap iteration order is arbitrary but a permutation of the entries; the harness cannot read it (private field), "
                        "so the entry the implementation picked is passed to the model as the order oracle",
                        "object paths reaching run() are valid D-Bus paths (the header decoder rejects others); arbitrary strings are "
